@@ -26,7 +26,7 @@ OPS = {
     'C07': ['call', 'clear', 'archive', 'management'],
     'C15': ['call', 'info', 'clear', 'management'],
     'C16': ['call', 'clear', 'archive', 'management'],
-    'C18': ['key', 'lookup', 'management'],
+    'C18': ['call', 'key', 'lookup', 'management'],
     'C08': ['call', 'clear', 'archive', 'management', 'new'],
     'C12': ['call', 'key', 'rounding', 'new'],
     'C20': ['reduce'],
@@ -575,6 +575,23 @@ def check(prop, tier, seed, level_a_note=''):
             common.write_json(path, {'property': prop, 'obligation': n, 'replay_kind': 'history', 'history': v, 'message': v['message'],
                                      'how_to_replay': './check --replay %s' % path, 'sources_sha256': shas,
                                      'found_by': 'scenario with several decorated functions on the real code (contracts/wrapper_explore.sibling_probe)'})
+            rep.violation(n, path, True)
+    if prop == 'C18':
+        # bounded probe on the real code (never counted as proved): the symbolic `*args, **kwds` of the proofs cannot tell whether
+        # a named parameter of key()/lookup() themselves swallows a user keyword -- every parameter name that occurs in klepto's own
+        # signatures is tried as the name of a user parameter, in 8 callable forms, through the twelve decorators
+        from bounded import reserved_names as RN
+        rr = RN.run_c18(0, len(RN.names()))
+        bsum['reserved_names'] = {'names': rr['counters']['reserved_names'], 'evaluations': rr['evaluations'], 'valid_calls': rr['distinct'],
+                                  'samples': rr['samples'][:1]}
+        bsum['evaluations'] += rr['evaluations']
+        for v in rr['violations']:
+            n = 'reserved_names/%s[%s]' % (v['clause'], v['klass'])
+            path = common.replay_path(prop, n)
+            common.write_json(path, {'property': prop, 'obligation': n, 'replay_kind': 'bounded', 'module': 'bounded.reserved_names',
+                                     'witness': v['witness'], 'witness_class': v['klass'], 'message': v['message'],
+                                     'how_to_replay': './check --replay %s' % path, 'sources_sha256': shas,
+                                     'found_by': 'reserved-names probe on the real code (bounded/reserved_names.run_c18)'})
             rep.violation(n, path, True)
     for u in unsupported:
         cn = u.split(': ')[0]
